@@ -7,7 +7,7 @@ from checks_chain import verdict_from, merge, replay_file, ASSUME
 
 ALL_KINDS = fc.C01_KINDS | fc.C03_KINDS
 
-INV_C05 = ["LValid", "NeverTwoLongestAtOneHeight", "AckedNeverLost", "RedeliveryRecovers", "NotStuck"]
+INV_C05 = ["LValid", "EmptyOnlyWhileDown", "NeverTwoLongestAtOneHeight", "AckedNeverLost", "RedeliveryRecovers", "NotStuck"]
 PROP_C05 = ["ImmutableS", "RestartChangesNothing"]
 
 
